@@ -435,7 +435,7 @@ func init() {
 	core.Register(&core.Prop{
 		ID:    "C10",
 		Level: "exploration",
-		Rule:  "for each of the seven formats a schema that addresses only the record's own data (fields, type casts, arrays over children, templates, copy, javascript, javascript_with_context on the record and on its children, and declarations evaluated on the record's surviving PARENT that read the current record through it) and a record alphabet {two good records with different data and shapes, one failing by type cast, one by multiple xpath matches, one by a throwing script}: every record sequence up to length 4 (thorough 6); oracle out(seq)[i] == out([seq[i]])[0] for every position (bytes, checksum, failure class and text without positions), which implies the concatenation, permutation and replacement laws; plus, for 9 multi-line / multi-segment record layouts, sequences of ~450 (thorough ~900) records with distinct data whose first record carries a filler of every length 0..record length (so that the 4096-byte reader buffer boundaries fall on every byte offset of a record), delivered at once and in 1000-byte chunks, every position compared with the record transformed alone; distinct by (format, sequence)",
+		Rule:  "for each of the seven formats a schema that addresses only the record's own data (fields, type casts, arrays over children, templates, copy, javascript, javascript_with_context on the record and on its children, and declarations evaluated on the record's surviving PARENT that read the current record through it) and a record alphabet {two good records with different data and shapes, one failing by type cast, one by multiple xpath matches, one by a throwing script}: every record sequence up to length 4 (thorough 6); oracle out(seq)[i] == out([seq[i]])[0] for every position (bytes, checksum, failure class and text without positions), which implies the concatenation, permutation and replacement laws; plus, for 9 multi-line / multi-segment record layouts, sequences of ~450 (thorough ~900) records with distinct data whose first record carries a filler of every length 0..record length (so that the 4096-byte reader buffer boundaries fall on every byte offset of a record), delivered at once and in 1000-byte chunks, every position compared with the record transformed alone; distinct by (format, sequence); plus namespaced XML with declarations on the record, JSON records keyed inside repeating containers under a filter, and four formats whose failing records fail only when the result is encoded (float NaN / Inf)",
 		Assumptions: []string{
 			"failure texts are compared after masking digits (line / segment numbers legitimately depend on the position)",
 		},
